@@ -249,6 +249,7 @@ func main() {
 	tier := flag.String("tier", envOr("VERIF_TIER", "quick"), "quick or thorough")
 	replay := flag.String("replay", "", "replay a counterexample file natively")
 	list := flag.Bool("list", false, "list harnesses")
+	dump := flag.String("dump-trees", "", "extract and print the thread trees of the named harness")
 	only := flag.String("only", "", "run only harnesses whose name contains this")
 	par := flag.Int("j", 14, "parallel harness instances")
 	var prop string
@@ -266,6 +267,31 @@ func main() {
 	if *list {
 		for _, h := range hs {
 			fmt.Printf("%s %s (%s) %v\n", h.Prop, h.Func, h.PkgDir, h.Opts)
+		}
+		return
+	}
+	if *dump != "" {
+		for _, h := range hs {
+			if h.Func == *dump {
+				dirs := map[string]bool{h.Dir: true}
+				eng, err := symgo.Load(repoDir, []string{"./" + h.PkgDir}, engineOverlay(dirs, pkgNames))
+				if err != nil {
+					fatal("%v", err)
+				}
+				pk := ""
+				for _, p := range eng.Pkgs {
+					pk = p.PkgPath
+				}
+				js := expand(h, *tier)
+				tr, err := eng.ExtractTrees(symgo.HarnessCfg{Pkg: pk, Func: h.Func, Params: js[len(js)-1].params, Tier: *tier, Unwind: 16, Label: h.Func, MaxEvents: 60, MaxRecv: js[len(js)-1].params["N"]})
+				if err != nil {
+					fatal("%v", err)
+				}
+				dumpTrees(tr)
+				for _, ic := range tr.Ex.Inconcl {
+					fmt.Println("INCONCLUSIVE", ic.Kind, ic.Msg)
+				}
+			}
 		}
 		return
 	}
@@ -366,7 +392,13 @@ func runProperty(prop, tier, only string, par int, hs []harness, pkgNames map[st
 			cfg := symgo.HarnessCfg{Pkg: pkgPath(j.h), Func: j.h.Func, IntMode: opt(j.h, tier, "mode", "bv") == "int",
 				Solver: opt(j.h, tier, "solver", "z3"), Unwind: unwind, TimeoutMs: to, Params: j.params, Tier: tier,
 				MaxPaths: maxp, Deadline: time.Duration(dl) * time.Second, Label: j.label, Split: split}
-			ex, err := eng.Run(cfg)
+			var ex *symgo.Explorer
+			var err error
+			if opt(j.h, tier, "engine", "symgo") == "gobmc" {
+				ex, err = runBMC(eng, cfg, j, tier)
+			} else {
+				ex, err = eng.Run(cfg)
+			}
 			results[k] = jobResult{job: j, ex: ex, err: err, wall: time.Since(tj)}
 		}(k)
 	}
@@ -400,7 +432,7 @@ func runProperty(prop, tier, only string, par int, hs []harness, pkgNames map[st
 			writeReplay(path, f, r.job, open)
 			ok := true
 			out := ""
-			if opt(r.job.h, tier, "replay", "native") == "native" && f.Kind != "cover" {
+			if opt(r.job.h, tier, "replay", "native") == "native" && f.Kind != "cover" && f.Kind != "schedule" {
 				ok, out = replayFile(path, hs, pkgNames)
 				replayed++
 			}
@@ -665,4 +697,140 @@ func assumptionsFor(prop string) []string {
 		out = append(out, m[prop]...)
 	}
 	return out
+}
+
+func dumpTrees(tr *symgo.TreeResult) {
+	for _, name := range tr.Order {
+		t := tr.Templates[name]
+		fmt.Printf("== thread %s: %d paths\n", name, len(t.Paths))
+		for k, p := range t.Paths {
+			if k >= 6 {
+				fmt.Println("   ...")
+				break
+			}
+			var parts []string
+			for _, e := range p.Events {
+				s := e.Kind
+				if e.Obj != "" {
+					s += "(" + e.Obj + ")"
+				}
+				if e.Kind == "select" {
+					s += fmt.Sprintf("%v->%d%s", e.Cases, e.Choice, e.Msg)
+				}
+				if e.Kind == "spawn" {
+					s += "(" + e.Template + ")"
+				}
+				if e.Kind == "recv" || e.Kind == "acas" {
+					s += fmt.Sprintf("=%d", e.Choice)
+				}
+				if e.Kind == "tau" && e.Guard != nil {
+					s += "[" + clipS(e.Guard.String(), 60) + "]"
+				}
+				if e.Kind == "fail" || e.Kind == "panic" {
+					s += ":" + e.Msg
+				}
+				parts = append(parts, s)
+			}
+			fmt.Printf("   %d: %s\n", k, strings.Join(parts, " ; "))
+		}
+	}
+	for n, o := range tr.Objects {
+		fmt.Printf("obj %s %+v\n", n, *o)
+	}
+}
+
+func clipS(s string, n int) string {
+	if len(s) > n {
+		return s[:n] + "…"
+	}
+	return s
+}
+
+// runBMC decides a concurrent harness: thread trees are extracted by the
+// symbolic executor, then the product is model-checked with the schedule as
+// solver variables.
+func runBMC(eng *symgo.Engine, cfg symgo.HarnessCfg, j job, tier string) (*symgo.Explorer, error) {
+	eng.Tokens <- struct{}{}
+	defer func() { <-eng.Tokens }()
+	cfg.MaxEvents, _ = strconv.Atoi(opt(j.h, tier, "maxevents", "60"))
+	cfg.MaxRecv, _ = strconv.Atoi(opt(j.h, tier, "maxrecv", "0"))
+	if cfg.MaxRecv == 0 {
+		cfg.MaxRecv = j.params["N"]
+	}
+	tr, err := eng.ExtractTrees(cfg)
+	if err != nil {
+		return nil, err
+	}
+	ex := tr.Ex
+	if len(ex.Inconcl) > 0 {
+		return ex, nil
+	}
+	inst := map[string]int{}
+	for _, kv := range strings.Split(opt(j.h, tier, "inst", ""), ",") {
+		if k, v, ok := strings.Cut(kv, ":"); ok {
+			inst[k], _ = strconv.Atoi(v)
+		}
+	}
+	b := symgo.NewBMC(tr, inst)
+	if p := os.Getenv("VERIF_BMCLOG"); p != "" {
+		os.WriteFile(p+".dag.txt", []byte(b.Dump()), 0o644)
+	}
+	K := b.K
+	if v, _ := strconv.Atoi(opt(j.h, tier, "steps", "0")); v > 0 {
+		K = v
+	}
+	to, _ := strconv.Atoi(opt(j.h, tier, "bmctimeout", "900"))
+	solver := opt(j.h, tier, "bmcsolver", "z3")
+	queries := strings.Split(opt(j.h, tier, "queries", "cut,bad,deadlock"), ",")
+	type qr struct {
+		q     string
+		r     string
+		trace []string
+		d     time.Duration
+	}
+	out := make([]qr, len(queries))
+	var wg sync.WaitGroup
+	for qi, q := range queries {
+		wg.Add(1)
+		go func(qi int, q string) {
+			defer wg.Done()
+			r, trace, d := b.Solve(q, K, time.Duration(to)*time.Second, solver)
+			out[qi] = qr{q, r.String(), trace, d}
+		}(qi, q)
+	}
+	wg.Wait()
+	for _, o := range out {
+		ex.Obligations++
+		if os.Getenv("VERIF_PROGRESS") != "" {
+			fmt.Fprintf(os.Stderr, "[%s] bmc query %s: %s in %.1fs (K=%d, %s)\n", j.label, o.q, o.r, o.d.Seconds(), K, b.Describe())
+		}
+		ex.Samples = append(ex.Samples, fmt.Sprintf("BMC query %q over %s, K=%d steps: %s in %.1fs", o.q, b.Describe(), K, o.r, o.d.Seconds()))
+		switch o.r {
+		case "unsat":
+			ex.Discharged++
+		case "sat":
+			msg := map[string]string{"bad": "assertion failure or misuse of a channel/mutex/WaitGroup under some schedule", "deadlock": "deadlock or goroutine left behind under some schedule",
+				"cut": "a bound of the model is too small (thread path, receive or instance bound reachable)", "race": "data race: two goroutines can access the same variable at the same time, at least one writing"}[o.q]
+			last := ""
+			if len(o.trace) > 0 {
+				last = o.trace[len(o.trace)-1]
+			}
+			for _, l := range o.trace {
+				if strings.HasPrefix(l, "** ") {
+					last = l[3:]
+					break
+				}
+			}
+			if o.q == "cut" {
+				ex.Inconcl = append(ex.Inconcl, symgo.Inconclusive{Kind: "bound", Msg: msg + ": " + last})
+				continue
+			}
+			ex.Findings = append(ex.Findings, &symgo.Finding{Harness: j.label, Kind: "schedule", Msg: o.q + ": " + msg + " — " + last,
+				Model: map[string]string{"schedule": strings.Join(o.trace, "\n")}, Params: j.params, Tier: tier})
+		default:
+			ex.Inconcl = append(ex.Inconcl, symgo.Inconclusive{Kind: "solver-unknown", Msg: "BMC query " + o.q + " not decided within the time limit"})
+		}
+	}
+	ex.BMCStates, ex.BMCTransitions = b.Size()
+	return ex, nil
 }
